@@ -37,9 +37,12 @@ def bounded_event_rows(tier, seed):
     bad = None
     cases = 0
     F = P.TrajFlag
-    for k in range(4 if tier == 'quick' else 16):
+    for k in range(6 if tier == 'quick' else 18):
         look = [0.0, 0.0, 4.0, -3.0][k % 4]
-        shot = std_shot(P, rng, look_deg=look, mv=rng.uniform(1500, 3000), bc=rng.uniform(0.15, 0.5), table=P.TableG7, sh=rng.uniform(1.5, 3))
+        # every other shot has a head or tail wind: ground speed and air speed then differ at the sonic transition
+        winds = [P.Wind(P.Unit.MPH(rng.uniform(10, 30)), P.Unit.Degree(rng.choice([0, 180])))] if k % 2 else None
+        shot = std_shot(P, rng, look_deg=look, mv=rng.uniform(1800, 2600) if winds else rng.uniform(1500, 3000),
+                        bc=rng.uniform(0.15, 0.3) if winds else rng.uniform(0.15, 0.5), table=P.TableG7, sh=rng.uniform(1.5, 3), winds=winds)
         calc = P.Calculator()
         try:
             calc.set_weapon_zero(shot, P.Unit.Yard(rng.choice([100, 200])))
